@@ -230,6 +230,105 @@ func c11Singles() []string {
 	return xs
 }
 
+// ---- code-point sweep: "every single character" over Unicode instead of a hand-picked list
+
+// space-like, invisible, or otherwise easily "normalised" code points (always swept, and mixed into
+// random bodies)
+func c11SpecialRunes() []rune {
+	rs := []rune{0x0085, 0x00A0, 0x00AD, 0x061C, 0x115F, 0x1160, 0x1680, 0x180E, 0x2028, 0x2029, 0x202F, 0x205F, 0x2060,
+		0x2061, 0x2062, 0x2063, 0x2064, 0x2800, 0x3000, 0x3164, 0xFFA0, 0xFFFD, 0xFFFE, 0xFFFF, 0xFFF9, 0xFFFA, 0xFFFB,
+		0x00B7, 0x2212, 0x2018, 0x2019, 0x201C, 0x201D, 0x2026, 0x00D7, 0x212A, 0x2126, 0x00C5, 0x212B, 0xFB01, 0x1E9E, 0x0130, 0x0131}
+	add := func(lo, hi rune) {
+		for r := lo; r <= hi; r++ {
+			rs = append(rs, r)
+		}
+	}
+	add(0x2000, 0x200F) // en/em spaces, zero-width space / joiners, direction marks
+	add(0x202A, 0x202E) // bidi embedding controls
+	add(0x2066, 0x206F)
+	add(0x0300, 0x036F) // combining marks
+	add(0xFE00, 0xFE0F) // variation selectors
+	add(0xFF01, 0xFF5E) // full-width ASCII
+	add(0x3001, 0x3003)
+	return rs
+}
+
+// U+FEFF is swept separately: Go rejects a byte order mark anywhere but at the start of a file
+const c11BOM = 0xFEFF
+
+func c11SweepRunes(thorough bool) []rune {
+	seen := map[rune]bool{}
+	var out []rune
+	add := func(r rune) {
+		if r >= 0xD800 && r <= 0xDFFF || r == c11BOM || r < 0x80 || r > 0x10FFFF || seen[r] {
+			return
+		}
+		seen[r] = true
+		out = append(out, r)
+	}
+	for _, r := range c11SpecialRunes() {
+		add(r)
+	}
+	for r := rune(0x80); r <= 0x7FF; r++ {
+		add(r)
+	}
+	step := rune(16)
+	if thorough {
+		step = 1
+	}
+	for r := rune(0x800); r <= 0xFFFF; r += step {
+		add(r)
+	}
+	// astral planes
+	for _, r := range []rune{0x10000, 0x10FFFF, 0x10FFFE, 0x1D173, 0x1F1E6, 0x20000, 0x2FA1D, 0x30000, 0xE0001, 0xE0100, 0xE01EF, 0xF0000, 0x100000, 0x1F3FB, 0x1F9D1} {
+		add(r)
+	}
+	if thorough {
+		for r := rune(0x1F000); r <= 0x1FAFF; r++ {
+			add(r)
+		}
+		for r := rune(0xE0000); r <= 0xE01EF; r++ {
+			add(r)
+		}
+		for r := rune(0x10000); r <= 0x10FFFF; r += 257 {
+			add(r)
+		}
+	} else {
+		for r := rune(0x1F300); r <= 0x1F64F; r += 8 {
+			add(r)
+		}
+		for r := rune(0xE0020); r <= 0xE007F; r += 8 {
+			add(r)
+		}
+	}
+	return out
+}
+
+// sweep cases: [per] code points per literal, each at a different place (start, after a letter, ...),
+// every group in each of the 4 forms; evaluated in-process only
+func c11SweepCases(c *Ctx) []*c11Case {
+	rs := c11SweepRunes(c.Thorough())
+	per := c.Pick(1, 4)
+	c.CountN("sweep_code_points", len(rs))
+	var cases []*c11Case
+	letters := "abcdefgh"
+	for _, f := range []string{"str", "raw", "istr", "iraw"} {
+		for i := 0; i < len(rs); i += per {
+			var ps []c11Piece
+			for j := i; j < i+per && j < len(rs); j++ {
+				if j > i {
+					ps = append(ps, c11Piece{"char", string(letters[(j-i)%len(letters)])})
+				}
+				ps = append(ps, c11Piece{"char", string(rs[j])})
+			}
+			cases = append(cases, c11Mk(f, "sweep", ps))
+		}
+		// the byte order mark: hazard (Go: "illegal byte order mark" anywhere but at the start of a file)
+		cases = append(cases, c11Mk(f, "hazard-bom", []c11Piece{{"char", "a"}, {"char", string(rune(c11BOM))}, {"char", "b"}}))
+	}
+	return cases
+}
+
 func c11Gen(c *Ctx, rng *Rng) []*c11Case {
 	var cases []*c11Case
 	forms := []string{"str", "raw", "istr", "iraw"}
@@ -298,6 +397,8 @@ func c11Gen(c *Ctx, rng *Rng) []*c11Case {
 	} {
 		cases = append(cases, c11MkRawBody(p.f, "probe", p.body))
 	}
+	cases = append(cases, c11SweepCases(c)...)
+	special := c11SpecialRunes()
 	// random bodies
 	nrand := c.Pick(1500, 24000)
 	for i := 0; i < nrand; i++ {
@@ -322,7 +423,20 @@ func c11Gen(c *Ctx, rng *Rng) []*c11Case {
 				case q < 4:
 					x = Choose(rng, []string{"%", "%", "\\", "\"", "{", "}", "`", "'", "$", "\n", "\t", "s", "d", "v", "n", "t", "x", "0", " "})
 				case q < 5:
-					x = Choose(rng, c11Multi)
+					switch rng.Intn(4) {
+					case 0:
+						x = Choose(rng, c11Multi)
+					case 1:
+						x = string(Choose(rng, special))
+					case 2:
+						x = string(Choose(rng, []rune{0x3000, 0x00A0, 0x2003, 0x200B, 0x2028, 0xFF01, 0xFF20, 0x0301, 0xFFFD}))
+					default:
+						r := rune(0x80 + rng.Intn(0xFFFF-0x80))
+						if r >= 0xD800 && r <= 0xDFFF || r == c11BOM {
+							r = 0x3042
+						}
+						x = string(r)
+					}
 				default:
 					x = string([]byte{byte(0x20 + rng.Intn(0x5f))})
 				}
@@ -536,7 +650,11 @@ func c11Property(k *c11Case, o c11Obs) string {
 func runC11(c *Ctx) {
 	rng := NewRng(c.Seed)
 	c.Res.Rule = "every single character 0x20-0x7E, newline, tab and 11 multi-byte UTF-8 sequences that is an ordinary character of the form, in each of the 4 forms " +
-		"(alone, between letters, doubled, next to holes / percent signs; exhaustive), every escape of the grammar alone and with neighbours, " +
+		"(alone, between letters, doubled, next to holes / percent signs; exhaustive); a code-point sweep in each of the 4 forms, evaluated in-process: " +
+		"all of U+0080..U+07FF, every 16th code point of the rest of the BMP (quick) or every BMP code point (thorough) without surrogates, a fixed list of " +
+		"space-like / invisible / easily normalised code points (U+00A0 U+00AD U+1680 U+2000..U+200F U+2028 U+2029 U+202F U+205F U+2060 U+3000 U+FFFD, combining marks " +
+		"U+0300..U+036F, variation selectors, full-width ASCII U+FF01..U+FF5E, ...), astral samples (U+1F300..U+1F64F every 8th, U+10000, U+10FFFF, tags U+E0020.. (quick); " +
+		"U+1F000..U+1FAFF, U+E0000..U+E01EF and every 257th astral code point (thorough)), U+FEFF as a hazard probe; every escape of the grammar alone and with neighbours, " +
 		"\\{ \\} and every hole variable (int, string with % { } \\ \", empty string, bool, []int, tuple, []string) in both interpolated forms, " +
 		"then random bodies of 0-53 pieces biased to % \\ \" { } ` ' newline tab and multi-byte characters; " +
 		"non-trivial = non-empty body; distinct by (form, body)"
@@ -582,6 +700,19 @@ func runC11(c *Ctx) {
 		}
 		if i%499 == 3 {
 			c.Sample(map[string]any{"literal": c11Open[k.Form] + k.Body() + c11Close[k.Form], "emitted": o.expr, "value": o.val})
+		}
+		if k.Kind == "hazard-bom" {
+			// a byte order mark inside a literal: fc copies it, Go rejects it anywhere but at the start of
+			// a file ("illegal byte order mark"); no emitted program can carry it, like NUL
+			if o.ok && !o.evalOK && strings.Contains(o.evalErr, "byte order mark") {
+				c.Known("C11-bom-inside-literal")
+				c.Count("hazard_bom_inside_literal_is_a_go_compile_error")
+				continue
+			}
+			if bad := c11Property(k, o); bad != "" {
+				c.Violate("prop", bad, map[string]any{"case": k, "source": k.source(true), "emitted": o.expr}, false)
+			}
+			continue
 		}
 		if k.Kind == "hazard-float" {
 			// "Go %v otherwise": a float hole is printed with %f by frt.toS (1.500000, not 1.5)
@@ -644,7 +775,7 @@ func runC11(c *Ctx) {
 					map[string]any{"broken": "correspondence C11 StrLit.v vs fc", "case": k, "source": k.source(true), "emitted": o.expr, "model": m.rawLine}, true)
 			}
 		}
-		if k.Grammar && bad == "" {
+		if k.Grammar && bad == "" && k.Kind != "sweep" {
 			runnable = append(runnable, k)
 		}
 	}
